@@ -6,6 +6,7 @@ def dispatchCap (line : String) : String :=
   | "reg" :: args => handleReg args
   | "gen" :: args => handleGen args
   | "hist" :: args => handleHist args
+  | "ca" :: args => handleCa args
   | _ => "bad-op"
 
 partial def loopCap (h : IO.FS.Stream) (out : IO.FS.Stream) : IO Unit := do
